@@ -16,9 +16,11 @@ TRUSTED = [
 ASSUMES = [
     "callbacks arrive only for submitted (active) signatures, once per submission (C42)",
     "housekeep() is given every task proxy of the pool",
-    "interval is guaranteed between consecutive submissions of a signature unless housekeep() forgot it in between "
-    "(possible only after it succeeded and no task needed it any more)",
+    "c33_interval is proved for consecutive submissions with no housekeeping-forget of the signature in between; "
+    "across a forget the interval is NOT kept (open known finding, c33_interval_unconditional_refuted)",
 ]
+
+SIG_FORGET = "xtrig:interval-not-kept-after-housekeeping-forgot-succeeded-signature"
 
 ARGS = {"point": "%(point)s", "name": "%(name)s", "id": "%(id)s", "const": "k"}
 OKS = ["true", "true", "false", "false", "error", "garbage"]
@@ -88,7 +90,8 @@ class XtrigStream(Stream):
              "tasks": [{"id": 0, "name": "a", "point": 1, "labels": [0]}, {"id": 1, "name": "b", "point": 2, "labels": [0]}],
              "ops": [["call", 0, 0], ["call", 1, 1], ["cb", 0, "false"], ["call", 1, 3], ["call", 0, 5], ["cb", 0, "true"],
                      ["call", 0, 6], ["hk", [0, 1]], ["call", 1, 7], ["hk", [0, 1]], ["call", 1, 8]]},
-            # forgotten by housekeeping then needed again: re-submitted before the old interval is up
+            # witness of the open finding: succeeded, forgotten by housekeeping, needed again:
+            # re-submitted at t=2 although it was submitted at t=0 with interval 10
             {"labels": [{"label": 0, "kind": "func", "arg": "const", "succeed": True, "intvl": 10}],
              "tasks": [{"id": 0, "name": "a", "point": 1, "labels": [0]}, {"id": 1, "name": "a", "point": 2, "labels": [0]}],
              "ops": [["call", 0, 0], ["cb", 0, "true"], ["call", 0, 1], ["hk", [0]], ["call", 1, 2]]},
@@ -297,7 +300,8 @@ class XtrigStream(Stream):
         intv = {(t, k): v for t, k, v in r["intvl"]}
         clock_sigs = {sigs[t][k] for t, k, _ in r["trig"]}
         flags = {t["id"]: {k: False for k in t["labels"]} for t in c["tasks"]}
-        last_sub = {}        # sig -> (time, interval) of the last submission not forgotten since
+        last_sub = {}        # sig -> [time, interval, forgotten-by-housekeep-since?] of the last submission
+        known = None         # first occurrence of the known deviation (reported only if nothing else fails)
         succeeded = set()    # succeeded and not forgotten since
         prev_sat, prev_active = set(), []
         for ob in r["trace"]:
@@ -321,10 +325,15 @@ class XtrigStream(Stream):
                     if s in succeeded:
                         return f"called-after-success: {s} submitted although it succeeded and is still needed"
                     if s in last_sub and now < last_sub[s][0] + last_sub[s][1]:
-                        return (f"interval: {s} submitted at {now}, previous submission at {last_sub[s][0]} "
-                                f"with interval {last_sub[s][1]}")
+                        if not last_sub[s][2]:
+                            return (f"interval: {s} submitted at {now}, previous submission at {last_sub[s][0]} "
+                                    f"with interval {last_sub[s][1]}")
+                        known = known or (
+                            f"interval-after-forget: {s} submitted at {now}, previous submission at {last_sub[s][0]} "
+                            f"with interval {last_sub[s][1]}; in between it succeeded and housekeep forgot it "
+                            f"(with its t_next_call entry) because no task needed it")
                     iv = [intv[(tid, k)] for k, v in sigs[tid].items() if v == s and not flags[tid][k]]
-                    last_sub[s] = (now, iv[0] if iv else 0)
+                    last_sub[s] = [now, iv[0] if iv else 0, False]
                     if s not in [sigs[tid][k] for k in flags[tid] if not flags[tid][k]]:
                         return f"{s} submitted but task {tid} has no unsatisfied label with that signature"
                 # dependents of succeeded signatures become satisfied
@@ -356,14 +365,17 @@ class XtrigStream(Stream):
                     if s in needed:
                         return f"forgot-needed: housekeep forgot {s} although a task still needs it"
                     succeeded.discard(s)
-                    last_sub.pop(s, None)
+                    if s in last_sub:
+                        last_sub[s][2] = True
             elif prev_sat - set(ob["sat"]):
                 return f"succeeded signatures {sorted(prev_sat - set(ob['sat']))} forgotten outside housekeep"
             flags = new_flags
             prev_sat, prev_active = set(ob["sat"]), list(ob["active"])
-        return None
+        return known
 
     def classify(self, c, r, failure):
+        if failure.startswith("interval-after-forget:"):
+            return SIG_FORGET
         return "xtrig:" + failure.split(":")[0].split(" ")[0]
 
     def key(self, c, r):
@@ -401,9 +413,10 @@ META = {
         "compared in Coq (stub pool, virtual clock)."),
     "level_note": (
         "Hand model; stubs for proc_pool/broadcast/DB/data store; signatures numbered. The interval guarantee does not "
-        "span a housekeeping-forget (after success, when no task needs the signature, a later task re-commences it at "
-        "once): stated as hypothesis, witness in Props/C33.v, not treated as a defect. force_satisfy, sequential-spawn "
-        "and restart loading are outside this property. Trusted: Coq kernel+VM, harness."),
+        "span a housekeeping-forget (after success, when no task needs the signature, housekeep deletes its t_next_call "
+        "entry and a later task re-submits it at once): the unconditional statement is refuted in Props/C33.v "
+        "(c33_interval_unconditional_refuted) and filed as an open known finding; c33_interval is the restricted theorem. "
+        "force_satisfy, sequential-spawn and restart loading are outside this property. Trusted: Coq kernel+VM, harness."),
     "technique": "Coq proof (invariants + ghost-event trace induction) + in-Coq differential correspondence + discipline oracle",
     "design_ref": "5/C33",
 }
